@@ -129,8 +129,8 @@ Definition verdict (c : case) : nat :=
            end
   end.
 
-Definition check_all (cs : list case) : list (nat * nat) :=
-  filter (fun p => negb (Nat.eqb (snd p) 0)) (map (fun c => (N.to_nat (c_id c), verdict c)) cs).
+Definition check_all (cs : list case) : list (N * nat) :=
+  filter (fun p => negb (Nat.eqb (snd p) 0)) (map (fun c => (c_id c, verdict c)) cs).
 
 (* self-test of the checker on the defect's witness: a lost error is flagged *)
 Example verdict_flags_lost_error :
